@@ -38,9 +38,15 @@ Theorem C11_helper_bookkeeping :
   helpers_store_under_name_plus_suffix_with_transform_reparam = true.
 Proof. exact helper_bookkeeping. Qed.
 
+(* the bounded-support helpers build their base distributions with validate_args=True: numpyro then assigns -inf to values outside
+   the support stated above instead of evaluating the density formula there (tied to the real objects by the correspondence) *)
+Theorem C11_out_of_support_rejected : bounded_helpers_reject_out_of_support_values = true.
+Proof. reflexivity. Qed.
+
 Print Assumptions C11_gaussian_helper_law.
 Print Assumptions C11_uniform_helper_law.
 Print Assumptions C11_truncnorm_helper_law.
 Print Assumptions C11_reparam_constant_jacobian.
 Print Assumptions C11_exposed_value.
 Print Assumptions C11_helper_bookkeeping.
+Print Assumptions C11_out_of_support_rejected.
